@@ -870,6 +870,11 @@ func (t *Tree) Compile(file string, args []string, out io.Writer) (err error) {
 					}
 				}
 
+				if !consumes {
+					/* no element consumes: all of them have been visited above */
+					elements = nil
+				}
+
 				for c := range slices.Backward(classes) {
 					s = s.Union(classes[c].s)
 				}
